@@ -46,7 +46,7 @@ PROPS = {
         "jl": True,
         "module": "Props.C10",
         "namespace": "Jl.C10",
-        "extra_theorem_files": [("Proofs.CastTyped", "Jl.CastTyped")],
+        "extra_theorem_files": [("Proofs.CastTyped", "Jl.CastTyped"), ("Proofs.ValueTie", "Jl.ValueTie")],
         "rule": ("19 casters + cast.To with each of the 18 sample types (and an unsupported one) x a universe of ~140 source values of "
                  "~60 dynamic types: nil, the 19 supported types with several values each (boundary numbers, look-alike strings, byte "
                  "slices of sizes 0/1/2/4/8, times incl. years < 0 and > 9999), named variants, typed nils, pointers, structs, maps, "
@@ -131,7 +131,7 @@ PROPS = {
         "jl": True,
         "module": "Props.C04",
         "namespace": "Jl.C04",
-        "extra_theorem_files": [("Proofs.TimeShape", "Jl.TimeShape"), ("Proofs.LineLevel", "Jl.LineLevel")],
+        "extra_theorem_files": [("Proofs.TimeShape", "Jl.TimeShape"), ("Proofs.LineLevel", "Jl.LineLevel"), ("Proofs.ValueTie", "Jl.ValueTie")],
         "rule": ("9 output formats x (18 raw types + none) x 9 x 19 input descriptors (sampled) x ~85 JSON values (null, booleans, numbers "
                  "of every spelling and magnitude incl. 1e400, 30 digits, timestamps around years 0, 1970, 9999, 10000, +-2^63; strings "
                  "incl. numeric / boolean / base64 / date / date-time look-alikes and near-misses; arrays; objects), at top level and inside a "
@@ -228,6 +228,7 @@ PROPS = {
         "kind": "c18",
         "module": "Props.C18",
         "namespace": "Jl.C18",
+        "extra_theorem_files": [("Proofs.PathRoundTrip", "Jl.PathRoundTrip")],
         "rule": ("5 documents (objects nested to depth 6, arrays of objects, mixed arrays, nested arrays, nulls, empty keys) given as JSON "
                  "text, as the equivalent programmatic construction, and mixed (a built row holding a parsed row holding built values); "
                  "GetValueAtPath/GetAtPath and FindValuesAtPath for every path of 1 and 2 segments over a 28-key alphabet plus 33 "
@@ -257,7 +258,7 @@ PROPS = {
         "kind": "c15",
         "module": "Props.C15",
         "namespace": "Jl.C15",
-        "extra_theorem_files": [("Proofs.Alias", "Jl.Alias")],
+        "extra_theorem_files": [("Proofs.Alias", "Jl.Alias"), ("Proofs.AliasFamily", "Jl.AliasFamily")],
         "rule": ("600 (thorough: 20000) interleavings of 2-40 operations — CreateRowEmpty, CreateRow from map / slice / JSON text / an existing "
                  "row, UnmarshalJSON into a live row (accepted, rejected by the template, syntactically invalid, duplicate keys), Set and "
                  "ImportAtKey on a live row (declared, undeclared, empty keys; convertible and unconvertible values), Export of a live row "
@@ -293,7 +294,7 @@ PROPS = {
         "kind": "c13",
         "module": "Props.C13",
         "namespace": "Jl.C13",
-        "extra_theorem_files": [("Proofs.Pairings", "Jl.Pairings"), ("Proofs.RowRoundTrip", "Jl.RowRoundTrip"), ("Proofs.RowRoundTripN", "Jl.RowRoundTripN")],
+        "extra_theorem_files": [("Proofs.Pairings", "Jl.Pairings"), ("Proofs.RowRoundTrip", "Jl.RowRoundTrip"), ("Proofs.RowRoundTripN", "Jl.RowRoundTripN"), ("Proofs.ValueTie", "Jl.ValueTie")],
         "rule": ("every pairing of 8 formats x (18 raw types + none) — the ~95 of the lossless table AND the pairings outside it (to confirm the "
                  "table is tight) — x boundary and random values of the raw type (integers: bounds, +-1, powers of two; floats: +-0, "
                  "subnormals, extremes, 2^53+1, NaN/Inf; strings: valid UTF-8 incl. escapes-needing characters, look-alikes, and ill-formed "
@@ -309,7 +310,7 @@ PROPS = {
         "kind": "c05",
         "module": "Props.C05",
         "namespace": "Jl.C05",
-        "extra_theorem_files": [("Proofs.Pairings", "Jl.Pairings"), ("Proofs.SelfReadable", "Jl.SelfReadable"), ("Proofs.LineFixedPoint", "Jl.LineFixedPoint")],
+        "extra_theorem_files": [("Proofs.Pairings", "Jl.Pairings"), ("Proofs.SelfReadable", "Jl.SelfReadable"), ("Proofs.LineFixedPoint", "Jl.LineFixedPoint"), ("Proofs.ValueTie", "Jl.ValueTie")],
         "rule": ("under process zones UTC, +05:30, -03:00, Europe/Paris, America/New_York: output templates of 1-5 columns whose descriptors are "
                  "drawn from the self-readable table (all 9 formats, raw types incl. none; hidden included), input templates equal to the "
                  "output template or with independent formats / raw types / auto, input lines with values chosen to be mostly accepted "
@@ -326,6 +327,7 @@ PROPS = {
         "jl": True,
         "module": "Props.C19",
         "namespace": "Jl.C19",
+        "extra_theorem_files": [("Proofs.JlDescriptor", "Jl.JlDescriptor")],
         "rule": ("the jl binary built from the working tree, run in scratch directories (TZ=UTC): 120 (thorough: 3000) random column lists "
                  "(1-4 columns, names incl. non-ASCII and spaces, sub-rows to depth 2; input and output descriptors drawn from: absent, "
                  "every format, format(type) for all 19 type names, unknown names, wrong case, and the regexp's edge cases 'string()', "
